@@ -18,7 +18,8 @@ def source_tokens(lexer_cls, text):
     return None if sp is None else [s[1] for s in sp]
 
 
-GARBAGE = ['x y', ')', '(', 'select', 'from', ';', 'x y ;', '1', ',', "'s'", 'drop', 'and', '= =', '. .']
+GARBAGE = ['x y', ')', '(', 'select', 'from', ';', 'x y ;', '1', ',', "'s'", 'drop', 'and', '= =', '. .',
+           '#', '# zz', '!', '\\', '\u00a7', '^', '~', '?', '$', '&', '#a b']
 
 
 @st.composite
